@@ -58,6 +58,8 @@ fn search(prop: &str, seed: u64, obls: &[String]) -> Option<Found> {
         "C07" => c07::search(seed, obls, false),
         "C18" => c07::search(seed, obls, true),
         "C01" => opw::search("c01", seed, 60000),
+        "C02" => opw::search("c02", seed, 60000),
+        "C03" => opw::search("c03", seed, 60000),
         "C04" => opw::search("c04", seed, 60000),
         "C05" => opw::search("c05", seed, 100000),
         "C06" => opw::search("c06", seed, 60000),
@@ -71,7 +73,7 @@ fn search(prop: &str, seed: u64, obls: &[String]) -> Option<Found> {
 fn replay(prop: &str, kind: &str, case: &str) -> Option<Found> {
     match prop {
         "C07" | "C18" => c07::replay(kind, case),
-        "C01" | "C04" | "C05" | "C06" | "C08" => opw::replay(kind, case),
+        "C01" | "C02" | "C03" | "C04" | "C05" | "C06" | "C08" => opw::replay(kind, case),
         "C09" | "C16" => wrap::replay(kind, case),
         _ => None,
     }
